@@ -199,38 +199,42 @@ theorem readZPairs_good {N : Nat} : ∀ (k : Nat) (bs : Bytes), bs.length ≤ N 
 
 /-! ### engine calls never answer `fuel` (nor `shortString`) -/
 
-theorem nofuel_of {α : Type} (x : Except Err α) (h : ∀ e, x = .error e → e = .invalidDb ∨ e = .wrongType) : NoFuel x := by
+theorem nofuel_of {α : Type} (x : Except Err α) (h : ∀ e, x = .error e → e = .invalidDb ∨ e = .wrongType ∨ e = .badExpire) : NoFuel x := by
   intro e he
-  cases h e he with
-  | inl h => subst h; exact ⟨by simp, by simp⟩
-  | inr h => subst h; exact ⟨by simp, by simp⟩
+  rcases h e he with h | h | h
+  · subst h; exact ⟨by simp, by simp⟩
+  · subst h; exact ⟨by simp, by simp⟩
+  · subst h; exact ⟨by simp, by simp⟩
 
 theorem setValue_nofuel (valid : Bool) (db : Db) (e : Entry) : NoFuel (setValue valid db e) := by
-  apply nofuel_of; intro e' h; unfold setValue at h; split at h <;> simp at h; exact Or.inl h.symm
+  apply nofuel_of; intro e' h; unfold setValue at h
+  split at h
+  · simp at h; exact Or.inr (Or.inr h.symm)
+  · split at h <;> simp at h; exact Or.inl h.symm
 
 theorem rpush_nofuel (valid : Bool) (db : Db) (k x : Bytes) : NoFuel (rpush valid db k x) := by
   apply nofuel_of; intro e' h; unfold rpush at h
   split at h
   · simp at h; exact Or.inl h.symm
-  · split at h <;> simp at h; exact Or.inr h.symm
+  · split at h <;> simp at h; exact Or.inr (Or.inl h.symm)
 
 theorem sadd_nofuel (valid : Bool) (db : Db) (k : Bytes) (ms : List Bytes) : NoFuel (sadd valid db k ms) := by
   apply nofuel_of; intro e' h; unfold sadd at h
   split at h
   · simp at h; exact Or.inl h.symm
-  · split at h <;> simp at h; exact Or.inr h.symm
+  · split at h <;> simp at h; exact Or.inr (Or.inl h.symm)
 
 theorem hset_nofuel (valid : Bool) (db : Db) (k : Bytes) (fvs : List (Bytes × Bytes)) : NoFuel (hset valid db k fvs) := by
   apply nofuel_of; intro e' h; unfold hset at h
   split at h
   · simp at h; exact Or.inl h.symm
-  · split at h <;> simp at h; exact Or.inr h.symm
+  · split at h <;> simp at h; exact Or.inr (Or.inl h.symm)
 
 theorem zadd_nofuel (valid : Bool) (db : Db) (k m : Bytes) (sc : Nat) : NoFuel (zadd valid db k m sc) := by
   apply nofuel_of; intro e' h; unfold zadd at h
   split at h
   · simp at h; exact Or.inl h.symm
-  · split at h <;> simp at h; exact Or.inr h.symm
+  · split at h <;> simp at h; exact Or.inr (Or.inl h.symm)
 
 theorem expireOpt_nofuel (valid : Bool) (db : Db) (k : Bytes) (dl : Option Nat) : NoFuel (expireOpt valid db k dl) := by
   apply nofuel_of; intro e' h
@@ -239,8 +243,10 @@ theorem expireOpt_nofuel (valid : Bool) (db : Db) (k : Bytes) (dl : Option Nat) 
   | some d =>
     simp only [expireOpt, expire] at h
     split at h
-    · simp at h; exact Or.inl h.symm
-    · split at h <;> simp at h
+    · simp at h; exact Or.inr (Or.inr h.symm)
+    · split at h
+      · simp at h; exact Or.inl h.symm
+      · split at h <;> simp at h
 
 theorem nofuel_ok {α : Type} (a : α) : NoFuel (.ok a : Except Err α) := by
   intro e h; cases h
